@@ -391,3 +391,164 @@ Proof.
       - destruct (update_old_shape _ _ _ _ _ _ _ _ Ho E) as (_ & _ & _ & _ & _ & _ & (_ & _ & Q & _) & _). exact Q. }
     destruct Q as [Q1 Q2]. destruct (IH _ _ _ Q1 H) as [A B]. split; auto. congruence.
 Qed.
+
+Lemma apply_locs_aux : forall h rg locs b b', apply_locs h rg locs b = Ok b' -> same_aux b b'.
+Proof.
+  intros h rg locs. induction locs as [|[[[op off] f] o] r IH]; intros b b' H; cbn [apply_locs] in H.
+  - inv H. apply same_aux_refl.
+  - dbind H. eapply same_aux_trans; [|eapply IH; eauto]. destruct (f_origin f) eqn:Ho.
+    + destruct (update_new_shape _ _ _ _ _ _ _ _ _ _ _ _ _ _ Ho E) as (e0 & [_ _ _ _ _ _ _ _ _ _ _ Q]). exact Q.
+    + destruct (update_old_shape _ _ _ _ _ _ _ _ Ho E) as (_ & _ & _ & _ & _ & _ & Q & _). exact Q.
+Qed.
+
+Lemma apply_lost_aux : forall h rg ov l b b', apply_lost h rg ov l b = Ok b' -> same_aux b b'.
+Proof.
+  intros h rg ov l. induction l as [|f r IH]; intros b b' H; cbn [apply_lost] in H.
+  - inv H. apply same_aux_refl.
+  - dbind H. dbind H. eapply same_aux_trans; [|eapply IH; eauto]. destruct (f_origin f) eqn:Ho.
+    + destruct (update_new_shape _ _ _ _ _ _ _ _ _ _ _ _ _ _ Ho E0) as (e0 & [_ _ _ _ _ _ _ _ _ _ _ Q]). exact Q.
+    + destruct (update_old_shape _ _ _ _ _ _ _ _ Ho E0) as (_ & _ & _ & _ & _ & _ & Q & _). exact Q.
+Qed.
+
+Lemma floating_of_old_src : forall cfg st h t ents F tiv,
+  tx_plain t -> length ents = length (t_ins t) ->
+  floating_of cfg st h t ents = Ok (F, tiv) ->
+  tiv = in_start cfg 0 ents (length ents) /\
+  forall f seq, In f F -> f_origin f = OOld seq ->
+    exists i u off, nth_error ents i = Some u /\ In (seq, off) (u_insc u) /\ f_offset f = in_start cfg 0 ents i + off.
+Proof.
+  intros cfg st h t ents F tiv HP HL H. unfold floating_of in H. dbind H. dbind H. inv H.
+  apply (inputs_loop_old_src _ _ _ _ _ _ _ 0 [] ents) in E; auto. cbn [a_tiv a_float] in E. destruct E as [T Hs]. split; auto.
+  intros f seq Hf Ho. apply in_map_iff in Hf. destruct Hf as (g & G1 & G2).
+  assert (Hg : f_origin g = OOld seq /\ f_offset g = f_offset f).
+  { subst f. unfold fix_new in *. destruct (f_origin g) eqn:Q; cbn in Ho; [discriminate|]. rewrite Q in Ho. auto. }
+  destruct Hg as [Hg1 Hg2]. destruct (Hs g seq G2 Hg1) as [[]|(i & u & off & A & B & C)].
+  exists i, u, off. repeat split; auto. congruence.
+Qed.
+
+Section SatTx.
+Variable cfg : config.
+Hypothesis HS : c_sats cfg = true.
+
+Record SI (b : bst) : Prop := {
+  si_dom : DomIff (b_next b) (s_entries (b_st b));
+  si_ent : EntInv (s_entries (b_st b)) (s_utxo (b_st b)) (b_lost_ranges b);
+  si_key : KeyU (s_entries (b_st b)) (s_utxo (b_st b));
+  si_fl : FlInv (s_entries (b_st b)) (b_cb_ranges b) (b_flot b);
+  si_cb : ranges_size (b_cb_ranges b) = b_reward b;
+  si_off : Off cfg (s_utxo (b_st b))
+}.
+
+Definition ins_real (t : tx) : Prop := Forall (fun p => fst p <> 0) (t_ins t).
+
+Lemma tv_size : forall u, total_value cfg u = ranges_size (u_ranges u).
+Proof. intro u. unfold total_value. rewrite HS. reflexivity. Qed.
+
+Lemma in_start_sizes : forall ents i, in_start cfg 0 ents i = sizes_before ents i.
+Proof.
+  intros ents i. unfold in_start, sizes_before. rewrite N.add_0_l. generalize (firstn i ents). intro l.
+  induction l as [|u r IH]; cbn [fold_right]; [reflexivity|]. rewrite IH, tv_size. reflexivity.
+Qed.
+
+Lemma Forall2_nth : forall {A B} (P : A -> B -> Prop) l1 l2 i b,
+  Forall2 P l1 l2 -> nth_error l2 i = Some b -> exists a, nth_error l1 i = Some a /\ P a b.
+Proof.
+  intros A B P l1 l2 i b H. revert i. induction H; intros [|i] Hn; cbn in *; try discriminate.
+  - inv Hn. eauto.
+  - eauto.
+Qed.
+
+Lemma Forall2_In_r : forall {A B} (P : A -> B -> Prop) l1 l2 b,
+  Forall2 P l1 l2 -> In b l2 -> exists a, In a l1 /\ P a b.
+Proof.
+  intros A B P l1 l2 b H. induction H; intros Hin; [destruct Hin|]. destruct Hin as [<-|Hin].
+  - exists x. split; [left|]; auto.
+  - destruct (IHForall2 Hin) as (a & A1 & A2). exists a. split; [right|]; auto.
+Qed.
+
+Lemma index_tx_sat_plain : forall h t b b',
+  SI b -> b_lost_ranges b = [] -> NullR (s_utxo (b_st b)) (b_lost b) ->
+  tx_plain t -> ins_real t -> t_id t <> 0 ->
+  index_tx cfg h true false t b = Ok b' ->
+  SI b' /\ b_lost_ranges b' = [] /\ NullR (s_utxo (b_st b')) (b_lost b').
+Proof.
+  intros h t b b' [D HE HK HF HC HO] HLR HN HP HR Hz H.
+  pose proof (index_tx_off cfg _ _ _ _ _ _ HO H) as HOff'.
+  unfold index_tx in H. rewrite HS in H.
+  dbind H. destruct a as [ents utxo1]. rename E into ET.
+  dbind H. destruct a as [[per_out in_ranges] b1]. dbind E. destruct a as [po lft]. inv E. rename E0 into ESp.
+  set (input := concat (map u_ranges ents)) in *.
+  destruct (take_inputs_tg _ _ _ _ ET) as (T1 & T2 & T3).
+  pose proof (take_inputs_length _ _ _ _ ET) as TL.
+  unfold index_inscriptions in H. dbind H. destruct a as [F tiv]. rename E into EF.
+  rewrite (plain_not_coinbase t HP) in H. cbn [set_st b_st b_flot b_reward b_lost b_next b_cb_ranges b_lost_ranges] in *.
+  destruct (assign (t_id t) 0 0 (t_outs t) (sort_by f_offset F)) as [[locs rest] ov] eqn:EA.
+  dbind H. rename a into b3. rename E into EL. dbind H. rename a into rest'. rename E into ER. dbind H. rename a into d. inv H.
+  (* facts about the inputs *)
+  assert (Hin : forall i u, nth_error ents i = Some u ->
+            (forall s off, In (s, off) (u_insc u) ->
+               tgN s (s_entries (b_st b)) <> None /\ sat_at (s_entries (b_st b)) (u_ranges u) s off)).
+  { intros i u Hi s off Hp. destruct (Forall2_nth _ _ _ _ _ T1 Hi) as (p & P1 & P2).
+    assert (Pin : In p (t_ins t)) by (eapply nth_error_In; eauto).
+    assert (Pnn : is_null p = false).
+    { unfold tx_plain in HP. rewrite forallb_forall in HP. specialize (HP p Pin). destruct (is_null p); [discriminate|reflexivity]. }
+    assert (Pnu : p <> unbound_op).
+    { unfold ins_real in HR. rewrite Forall_forall in HR. specialize (HR p Pin). intro. subst. apply HR. reflexivity. }
+    split; [eapply HK; eauto|]. specialize (HE p u P2 Pnu s off Hp). unfold eranges in HE. rewrite Pnn in HE. exact HE. }
+  destruct (floating_of_old_src _ _ _ _ _ _ _ HP TL EF) as [Htiv Hsrc].
+  assert (FF : FlInv (s_entries (b_st b)) input F).
+  { intros f s Hf Ho. destruct (Hsrc f s Hf Ho) as (i & u & off & A & B & C). destruct (Hin i u A s off B) as [K1 K2].
+    split; auto. intros e n He Hn. rewrite C, in_start_sizes. subst input. eapply calc_concat; eauto. }
+  (* outputs *)
+  set (utxo2 := put_outputs cfg (t_id t) 0 (t_outs t) per_out utxo1) in *.
+  assert (E2 : EntInv (s_entries (b_st b)) utxo2 []).
+  { intros op u Hu Hne s off Hp. apply put_outputs_tg in Hu. destruct Hu as [[_ Hu]|Hu]; [rewrite Hu in Hp; destruct Hp|].
+    rewrite HLR in HE. eapply HE; eauto. }
+  assert (K2 : KeyU (s_entries (b_st b)) utxo2).
+  { intros op u s off Hu Hp. apply put_outputs_tg in Hu. destruct Hu as [[_ Hu]|Hu]; [rewrite Hu in Hp; destruct Hp|]. eapply HK; eauto. }
+  assert (O2 : OutsR (t_id t) (t_outs t) per_out utxo2).
+  { intros k o Hk. subst utxo2. rewrite <- (N.add_0_l (N.of_nat k)). rewrite (put_outputs_lookup cfg _ _ _ _ _ _ _ Hk), HS.
+    eexists. split; reflexivity. }
+  pose proof (assign_split _ _ _ _ _ _ _ _ EA) as ESplit.
+  assert (AS0 : Forall (fun f => 0 <= f_offset f) (sort_by f_offset F)) by (apply Forall_forall; intros; lia).
+  destruct (assign_spec (t_id t) (t_outs t) 0 0 (sort_by f_offset F) locs rest ov (sort_by_sorted f_offset F) AS0 EA) as (Hov & Hrest & HL).
+  assert (Fall : FlInv (s_entries (b_st b)) input (map loc_flot locs ++ rest)).
+  { rewrite <- ESplit. intros f s Hf. apply FF. eapply Permutation_in; [apply sort_by_perm|exact Hf]. }
+  pose proof EL as EL2.
+  eapply (apply_locs_sat h input (t_id t) (t_outs t) per_out lft [] locs) in EL2;
+    [ | exact Hz | exact ESp | exact D | exact E2 | exact K2
+      | intros f s Hf; apply Fall; apply in_or_app; left; exact Hf | exact O2 | exact HL ].
+  destruct EL2 as (D3 & E3 & K3 & X3 & O3). cbn [set_st b_st s_entries with_utxo] in X3.
+  pose proof (apply_locs_aux _ _ _ _ _ EL) as (A1 & A2 & A3 & A4 & A5 & _).
+  cbn [set_st b_st b_flot b_reward b_lost b_next b_cb_ranges b_lost_ranges] in A1, A2, A3, A4, A5.
+  destruct (split_sats_spec _ _ _ _ ESp) as [_ HLf].
+  split; [|split].
+  - split; cbn [b_st b_next b_flot b_cb_ranges b_lost_ranges b_reward]; auto.
+    + rewrite A5, HLR. exact E3.
+    + rewrite A1, A4. intros f s Hf Ho. apply in_app_or in Hf. destruct Hf as [Hf|Hf].
+      * destruct (HF f s Hf Ho) as [Q1 Q2]. split; [eapply Ext_key; eauto|].
+        apply sat_at_mono. eapply sat_at_ext; eauto.
+      * destruct (Forall2_In_r _ _ _ _ (rebase_offsets _ _ _ _ ER) Hf) as (g & G1 & G2 & G3 & G4).
+        rewrite G3 in Ho. destruct (Fall g s) as [Q1 Q2]; [apply in_or_app; auto|exact Ho|].
+        split; [eapply Ext_key; eauto|]. intros e n He Hn.
+        assert (Hg : ov <= f_offset g) by (rewrite Forall_forall in Hrest; auto).
+        assert (Hc : calc_sat_in input 0 (f_offset g) = Ok n) by (eapply (sat_at_ext _ _ _ _ _ X3 Q1 Q2); eauto).
+        rewrite Hov, N.add_0_l in *. rewrite <- (HLf _ Hg) in Hc.
+        rewrite A2 in G4. rewrite calc_app_ge by (rewrite HC; lia). rewrite N.add_0_l, HC.
+        rewrite <- Hc, <- (calc_shift lft 0 (f_offset g - sum_values (t_outs t)) (b_reward b)).
+        f_equal; lia.
+    + rewrite A4, A2, ranges_size_app, HC.
+      pose proof (split_sats_size _ _ _ _ ESp) as SZ. unfold csub in E.
+      match type of E with (if ?c then _ else _) = _ => destruct c eqn:Q; inv E end.
+      assert (Hti : in_start cfg 0 ents (length ents) = ranges_size input).
+      { rewrite in_start_sizes. subst input. rewrite ranges_size_concat. unfold sizes_before. rewrite firstn_all. reflexivity. }
+      rewrite ?N.add_0_l in *. lia.
+  - cbn [b_lost_ranges]. rewrite A5. exact HLR.
+  - cbn [b_st b_lost].
+    assert (N2 : NullR utxo2 (b_lost b)).
+    { unfold NullR, entry_at in *. subst utxo2. rewrite put_outputs_tg_other by (cbn; auto).
+      rewrite T3; auto. intro Hin0. unfold tx_plain in HP. rewrite forallb_forall in HP. specialize (HP _ Hin0). discriminate. }
+    pose proof EL as EL3. eapply apply_locs_nullr in EL3; [|cbn [set_st b_st s_utxo with_utxo]; exact N2].
+    destruct EL3 as [N3 N4]. cbn [set_st b_lost] in N4. rewrite N4. exact N3.
+Qed.
+End SatTx.
